@@ -101,6 +101,7 @@ type vfEvent struct {
 	Raw     string  `json:"raw"`
 	MaxRt   int     `json:"maxrt"`  // init only
 	TxSeq0  string  `json:"txseq0"` // init only
+	Lax     bool    `json:"lax"`    // init only: the data plane still answers a query for a URR it has removed
 	Tag     string  `json:"tag"`    // free text from the generator (history classes)
 	Mut     vfMut   `json:"mut"`    // t = "mut": the valid message described by Base is built, mutated and sent
 	Base    string  `json:"mbase"`  // t = "mut": type of the valid message (hb assoc est mod del rptrsp)
@@ -203,10 +204,14 @@ type vfTwin struct {
 	fault2 map[int]bool // ordinals of create calls that fail after having taken effect (e.g. lost acknowledgement)
 	tok    *int
 	h      report.Handler
+	// lax: a permissive data plane - a query for a URR that was installed and has been removed is answered
+	// with a report (res "lax") instead of "no such rule"; what the UPF forwards must not depend on that
+	lax  bool
+	gone map[vfKey]bool
 }
 
 func vfNewTwin(tok *int) *vfTwin {
-	return &vfTwin{rules: map[vfKey]bool{}, faults: map[int]bool{}, fault2: map[int]bool{}, tok: tok}
+	return &vfTwin{rules: map[vfKey]bool{}, faults: map[int]bool{}, fault2: map[int]bool{}, tok: tok, gone: map[vfKey]bool{}}
 }
 
 var vfT0 = time.Date(2024, 1, 1, 0, 0, 0, 0, time.UTC)
@@ -284,10 +289,18 @@ func (tw *vfTwin) do(op, kind string, seid uint64, id int) ([]report.USAReport, 
 		}
 	default:
 		if !tw.rules[key] {
-			err = fmt.Errorf("twin: ENOENT")
+			if tw.lax && op == "query" && kind == "urr" && tw.gone[key] {
+				c.Res = "lax"
+			} else {
+				err = fmt.Errorf("twin: ENOENT")
+			}
 		} else if op == "remove" {
 			delete(tw.rules, key)
+			tw.gone[key] = true
 		}
+	}
+	if op == "create" && tw.rules[key] {
+		delete(tw.gone, key)
 	}
 	if err == nil && kind == "urr" && (op == "remove" || op == "query") {
 		r, rep := tw.newReport(id, 0)
@@ -1180,6 +1193,7 @@ func (x *vfExec) start(init *vfEvent) (*vfRun, error) {
 	r := &vfRun{}
 	x.takeFatal()
 	r.twin = vfNewTwin(&x.tok)
+	r.twin.lax = init.Lax
 	cfg := &factory.Config{
 		Pfcp: &factory.Pfcp{
 			Addr:           x.net.upf,
